@@ -14,6 +14,16 @@ def cfx(z):
     return [fx(z.real), fx(z.imag)]
 
 
+def cfx_sign(z):
+    """like cfx, but a non-zero component never becomes 0: the implementation's sign rule distinguishes an exactly vanishing
+    chord component from one of 1e-24, the fixed-point projection must not merge them"""
+    out = cfx(z)
+    for i, c in enumerate((z.real, z.imag)):
+        if out[i] == 0 and c != 0:
+            out[i] = 1 if c > 0 else -1
+    return out
+
+
 def embed_dir(sim, z):
     """model-frame direction (complex) -> embedded-frame unit vector (complex)"""
     v = sim.rot @ np.array([z.real, z.imag])
@@ -31,7 +41,7 @@ def make_case_objects(t, k, sim, rng, ids=None, resample=None, cell_perm=None, s
     desc, info = tissue.instance_desc(pos, cells, k, sim, id_offset=ids.get("offset", 0), id_stride=ids.get("stride", 1),
                                       interior_pts=interior, shuffle_rng=ids.get("shuffle"), vperm_rng=ids.get("vperm"))
     ex = getattr(sim, "exact_axis", None)
-    if ex is not None:
+    if ex is not None and ex[0] in info["interior"]:
         (ea, eb), first, ci = ex
         pts = info["interior"][(ea, eb)]
         junction = info["newid"][ea if first else eb]
@@ -112,7 +122,7 @@ def env_event(case, t, k, sim, info, vidx, cidx_of_model, want, extra=None, fram
         E.append({
             "a": bidx[a], "b": bidx[b], "T": fx(rec["T"]), "ta": cfx(rec["ta"]), "tb": cfx(rec["tb"]),
             "tea": cfx(embed_dir(sim, rec["ta"])), "teb": cfx(embed_dir(sim, rec["tb"])),
-            "cea": cfx(ca), "ceb": cfx(cb), "npts": npts,
+            "cea": cfx_sign(ca), "ceb": cfx_sign(cb), "npts": npts,
             "left": cidx_of_model.get(rec["left"], 0), "right": cidx_of_model.get(rec["right"], 0),
             "theta": fx(rec["theta"]), "straight": rec["centre"] is None,
         })
@@ -460,7 +470,8 @@ def align_similarity(t, k, sim, rng):
     removed in make_case_objects by copying the junction's coordinate), everything else generic"""
     import cmath
     internal, junctions = truth_structure(t)
-    cands = [(a, b) for (a, b) in sorted(t["edges"]) if a in junctions or b in junctions]
+    on_cells = set(tissue.base_edges([list(c) for c in t["cells"]])[0])
+    cands = [(a, b) for (a, b) in sorted(t["edges"]) if (a in junctions or b in junctions) and (a, b) in on_cells]
     if not cands:
         return sim
     a, b = rng.choice(cands)
